@@ -253,6 +253,12 @@ func (w *World) build() error {
 		return err
 	}
 	w.Srv = srv
+	if w.opt.BannerFile != "" {
+		srv.Banner = []byte("\xff\xd8\xff banner bytes")
+		if err := os.WriteFile(filepath.Join(w.Cfg, w.opt.BannerFile), srv.Banner, 0o644); err != nil {
+			return err
+		}
+	}
 	if w.Accounts, err = verifhooks.NewYAMLAccountManager(w.UsersDir); err != nil {
 		return fmt.Errorf("accounts: %w", err)
 	}
